@@ -385,6 +385,12 @@ fn invoke_inner(call: &Call) -> GDResult<Resp> {
                 2 => games::eco::query_with_timeout_and_extra_settings(ip, port, &ts, None)?,
                 // with a host name in the extra settings (a name that never resolves: the connection must
                 // still go to the caller's address, only the Host header changes)
+                4 | 5 => {
+                    // an empty host name, or one made of a bracket only: settings the type accepts
+                    let name = if *level == 4 { "" } else { "[" };
+                    let extra = ExtraRequestSettings { hostname: Some(name.to_string()), protocol_version: None, gather_players: None, gather_rules: None, check_app_id: None };
+                    games::eco::query_with_timeout_and_extra_settings(ip, port, &ts, Some(extra.into()))?
+                }
                 _ => {
                     let extra = ExtraRequestSettings { hostname: Some(ECO_HOST_NAME.to_string()), protocol_version: None, gather_players: None, gather_rules: None, check_app_id: None };
                     games::eco::query_with_timeout_and_extra_settings(ip, port, &ts, Some(extra.into()))?
